@@ -68,7 +68,7 @@ Choices ==
   CASE ChoiceSet = "default" -> {Default}
     [] ChoiceSet = "single" ->
          {Default,
-          [Default EXCEPT !.bullet = "*"], [Default EXCEPT !.bullet = "+"], [Default EXCEPT !.odelim = ")"], [Default EXCEPT !.ostart = 7],
+          [Default EXCEPT !.bullet = "*"], [Default EXCEPT !.bullet = "+"], [Default EXCEPT !.odelim = ")"], [Default EXCEPT !.ostart = 7], [Default EXCEPT !.ostart = 123456789], [Default EXCEPT !.ostart = 99999998],
           [Default EXCEPT !.pad = 2], [Default EXCEPT !.pad = 3], [Default EXCEPT !.pad = 4],
           [Default EXCEPT !.fch = "~"], [Default EXCEPT !.flen = 5], [Default EXCEPT !.lead = 1], [Default EXCEPT !.lead = 3],
           [Default EXCEPT !.qlead = 3], [Default EXCEPT !.llead = 2], [Default EXCEPT !.lazy = TRUE], [Default EXCEPT !.atxclose = TRUE],
@@ -97,8 +97,11 @@ PrefixLines(first, cont, blankp, lines, lazy) ==
 ParaLines(ls) == [k \in 1..Len(ls) |-> Ln(ls[k], k > 1)]
 Plain(ls) == [k \in 1..Len(ls) |-> Ln(ls[k], FALSE)]
 Digit(d) == CASE d = 0 -> "0" [] d = 1 -> "1" [] d = 2 -> "2" [] d = 3 -> "3" [] d = 4 -> "4" [] d = 5 -> "5" [] d = 6 -> "6" [] d = 7 -> "7" [] d = 8 -> "8" [] d = 9 -> "9"
-Digits(n) == IF n < 10 THEN Digit(n) ELSE Digit(n \div 10) \o Digit(n % 10)
+RECURSIVE Digits(_)
+Digits(n) == IF n < 10 THEN Digit(n) ELSE Digits(n \div 10) \o Digit(n % 10)
 
+\* a block that follows a list must not be indented: leading spaces would make it part of the last item
+AfterList(kids, i, ch) == IF i > 1 /\ kids[i-1][1] \in {"ul", "ol"} THEN [ch EXCEPT !.lead = 0] ELSE ch
 RECURSIVE Ser(_, _, _, _), SerSeq(_, _, _, _, _, _), SerItems(_, _, _, _, _, _)
 \* inList: the block stands inside a list item (thematic breaks must then not look like list markers)
 Ser(nd, ch0, inList, inQ) ==
@@ -122,11 +125,11 @@ Ser(nd, ch0, inList, inQ) ==
     [] k = "li" -> <<>>
 SerSeq(kids, ch, tight, inList, inQ, i) ==
   IF i > Len(kids) THEN <<>>
-  ELSE (IF i > 1 /\ ~tight THEN <<Blank>> ELSE <<>>) \o Ser(kids[i], ch, inList, inQ) \o SerSeq(kids, ch, tight, inList, inQ, i + 1)
+  ELSE (IF i > 1 /\ ~tight THEN <<Blank>> ELSE <<>>) \o Ser(kids[i], AfterList(kids, i, ch), inList, inQ) \o SerSeq(kids, ch, tight, inList, inQ, i + 1)
 SerItems(items, ch, loose, ordered, inQ, i) ==
   IF i > Len(items) THEN <<>>
   ELSE LET marker == IF ordered THEN Digits(ch.ostart + i - 1) \o ch.odelim ELSE ch.bullet
-           w == (IF ordered THEN (IF ch.ostart + i - 1 >= 10 THEN 3 ELSE 2) ELSE 1) + ch.pad
+           w == (IF ordered THEN Len(Digits(ch.ostart + i - 1)) + 1 ELSE 1) + ch.pad
            body == SerSeq(items[i][3], ch, ~loose, TRUE, inQ, 1)
        IN (IF i > 1 /\ loose THEN <<Blank>> ELSE <<>>)
           \o PrefixLines(Spaces(ch.llead) \o marker \o Spaces(ch.pad), Spaces(ch.llead + w), "", body, ch.lazy)
@@ -140,7 +143,7 @@ UsesRef(kids) == \E j \in 1..Len(kids) :
 RootLines(roots, ch) ==
   LET RECURSIVE R(_)
       R(i) == IF i > Len(roots) THEN <<>>
-              ELSE (IF i > 1 THEN (IF ch.blank2 THEN <<Blank, Blank>> ELSE <<Blank>>) ELSE <<>>) \o Ser(roots[i], ch, FALSE, FALSE) \o R(i + 1)
+              ELSE (IF i > 1 THEN (IF ch.blank2 THEN <<Blank, Blank>> ELSE <<Blank>>) ELSE <<>>) \o Ser(roots[i], AfterList(roots, i, ch), FALSE, FALSE) \o R(i + 1)
   IN R(1) \o (IF UsesRef(roots) THEN <<Blank, Ln("[r]: /ru \"rt\"", FALSE)>> ELSE <<>>)
 RECURSIVE JoinLines(_, _, _, _)
 JoinLines(ls, e, final, i) == IF i > Len(ls) THEN ""
